@@ -189,6 +189,42 @@ def template_well_conditioned(prog, full):
     return True
 
 
+def numpy_equals_python(ctx, prog, full, sub_text, text, witness):
+    """An integer raised to a negative integer power: the reference does not judge the value (section 1.2), but the
+    statement still ties every instance to the one substituted script, so an instance made from NumPy-typed values and
+    one made from the equal Python values must agree whenever the substituted script loads and the Python-typed
+    instantiation succeeds."""
+    import numpy as np
+
+    def as_numpy(v):
+        if isinstance(v, list):
+            return np.array(v)
+        if isinstance(v, bool):
+            return v
+        if isinstance(v, int):
+            return np.int64(v)
+        if isinstance(v, float):
+            return np.float64(v)
+        return v
+
+    sub, exc = common.real_loads(sub_text)
+    if exc is not None:
+        return
+    try:
+        a = prog(**full)
+    except Exception:
+        return
+    ctx.case(text + repr(sorted(full.items())) + "/np-vs-py", True, tags=["numpy-vs-python-values"])
+    ctx.hook("instantiated with NumPy values")
+    try:
+        b = prog(**{k_: as_numpy(v_) for k_, v_ in full.items()})
+    except Exception as e:
+        return ctx.violation("numpy-values:call-raises:" + common.exc_key(e), "P(**values) succeeds with Python numbers but raised %s with the same values as NumPy scalars/arrays" % common.exc_text(e), witness)
+    d = content.diff_real(content.program_content(a), content.program_content(b), content.Cfg(numbers="close", rtol=1e-9, seed="C04n", array_dtype=False), variables=True)
+    if d:
+        ctx.violation("numpy-values:" + common.diff_key(d), "instances from Python and from NumPy values differ: " + common.diff_text(d), witness)
+
+
 def check_case(ctx, text, vals, whole=None, tags=()):
     """whole: {param name: (rows, cols)} for whole-array parameters."""
     kind = common.classify(text, allow_func=True)
@@ -238,6 +274,8 @@ def check_case(ctx, text, vals, whole=None, tags=()):
     sub_text = substitute(text, full)
     k2 = common.classify(sub_text)
     if k2[0] == "ood":
+        if k2[1].startswith("int ** negative int") and set(prog.parameters) == set(written) and written:
+            numpy_equals_python(ctx, prog, full, sub_text, text, witness)
         ctx.out_of_domain("substituted script: " + k2[1].split(" (")[0])
         return
     if k2[0] != "ok":
@@ -379,6 +417,16 @@ def run(ctx):
             ctx.out_of_domain("generator gave up")
             continue
         check_case(ctx, text, vals, whole)
+        if i % 25 == 7:
+            # integer bases raised to parameters that receive negative integers (scalars and elements of a whole-array
+            # parameter): literal integers are Python integers, so the substituted script has a value
+            G_ = gen.Gen(rng, g, layout=0.0)
+            n1, n2, an, pn = G_.ident(), G_.ident(), G_.ident(), G_.ident()
+            cols = rng.choice([2, 3])
+            t_ = ("name pw\nversion 1.0\nfloat array %s[1, %d] =\n    {%s}\nG(%d**%s[%d], {%s}, k=%d**%s[0]) | 0\nH(%s, 2 * {%s}) | [1, 2]\n"
+                  % (an, cols, pn, rng.choice([2, 3, 10]), an, rng.randrange(cols), n1, rng.choice([2, 4]), an, an, n2))
+            v_ = {n1: rng.choice([-1, -2, -3, 2]), n2: rng.choice([-1, -2, 1]), pn: [[rng.choice([-3, -2, -1, 2]) for _ in range(cols)]]}
+            check_case(ctx, t_, v_, {pn: [1, cols]}, tags=["int-base-negative-int-power"] + (["numpy-values"] if rng.random() < 0.6 else []))
 
 
 def replay(w):
